@@ -205,8 +205,8 @@ def run(ctx):
         scen_res = {}
         scen_cell = {"refcount": "GeometryFactory::_refCount", "interrupt": "(anonymous namespace)::requested", "version": "GEOSversion::version",
                      "hasz": "CoordinateSequence::m_hasdim", "gcflags": "GeometryCollection::flags"}
-        for scen in ("refcount", "interrupt", "version", "hasz", "gcflags", "sharedprep"):
-            iters = "80000" if scen in ("hasz", "gcflags") else ("4000" if quick else "40000")
+        for scen in ("refcount", "interrupt", "version", "hasz", "gcflags", "sharedprep", "freshread"):
+            iters = "80000" if scen in ("hasz", "gcflags") else ("60" if quick else "600") if scen == "freshread" else ("4000" if quick else "40000")
             rc, txt = verif.sh([exe, "scenario", scen, "8", iters], timeout=600)
             m = re.search(r"wrong_results=(\d+)", txt)
             scen_res[scen] = {"rc": rc, "wrong_results": int(m.group(1)) if m else None}
@@ -215,6 +215,7 @@ def run(ctx):
                 sig = {"class": "unsynchronised-shared-cell", "cell": scen_cell[scen]} if scen in scen_cell else {"class": "scenario-fails", "scenario": scen}
                 found_input = True
                 what = {"sharedprep": "a PreparedPolygon whose indexes were all built before sharing is not safe for concurrent intersects(areal/lineal argument): FastSegmentSetIntersectionFinder::intersects keeps per-call state (segment intersector pointer, query chains) in the shared MCIndexSegmentSetMutualIntersector",
+                        "freshread": "read-only questions (intersects, disjoint, extent, distance) asked by all threads at once about a FRESH shared immutable LineString give wrong answers: something is computed lazily inside a const path of the geometry",
                         "hasz": "GEOSHasZ_r / GEOSGeom_getCoordinateDimension_r on a shared geometry whose sequence was created with unknown dimension return WRONG answers (race on CoordinateSequence::m_hasdim / m_hasz)"}.get(scen, "scenario " + scen)
                 ctx.violation("8 threads with own contexts: %s — exit code %d, %s" % (what, rc, (m.group(0) if m else txt[-200:].strip())),
                               {"kind": "failing-input", "scenario": scen, "threads": 8, "iters": int(iters), "rc": rc, "output": txt[-1500:], "signature": sig,
@@ -228,8 +229,8 @@ def run(ctx):
             ctx.cov["tsan"] = {"error": err[-600:]}
         else:
             reps = tsan_reports(res[1])
-            for scen in ("refcount", "interrupt", "version", "hasz", "gcflags"):
-                r2, e2 = run_tsan(ctx, ["scenario", scen, "4", "1500"], timeout=900)
+            for scen in ("refcount", "interrupt", "version", "hasz", "gcflags", "freshread"):
+                r2, e2 = run_tsan(ctx, ["scenario", scen, "4", "6" if scen == "freshread" else "1500"], timeout=900)
                 if r2:
                     reps += tsan_reports(r2[1])
             byc = {}
